@@ -2488,6 +2488,9 @@ def run_transl(ctx, ars_enc_pairs, ars_dec_pairs, tms_enc_pairs=(), tms_dec_pair
     for t in strs:
         arg = "N" if t is None else hx(t.encode("utf-8"))
         extra.append(("t.ars.lv " + arg, call(lambda: hx(ARS.encode_len_val(t)))))
+        if t is not None:   # the bytes form of the Union parameter
+            tb = t.encode("utf-8")[::-1]
+            extra.append(("t.ars.lvb " + hx(tb), call(lambda: hx(ARS.encode_len_val(tb)))))
     for _ in range(ctx.budget(600, 6000)):
         d = bytes(rng.choice((0, 1, 2, 3, 5, 255, rng.randrange(256))) for _ in range(rng.choice((0, 1, 2, 3, 6, 12))))
         i = rng.randrange(-len(d) - 2, len(d) + 3)
